@@ -113,7 +113,8 @@ int main()
         }
         double scale = 0.; for (int i = 0; i < nm; i++) scale = std::max(scale, std::fabs(M[(size_t)i * nm + i]));
         std::string vals; for (size_t k = 0; k < M.size(); k++) vals += (k ? "," : "") + dy(M[k]);
-        printf("s psd %s %d %s %s =>\n", tname.c_str(), nm, vals.c_str(), dy(std::ldexp(std::max(scale, 1e-300), -36)).c_str());
+        char cfg[96]; snprintf(cfg, sizeof cfg, "%s:dim%d:param%g:nvar%d%s", tname.c_str(), ndim, hasParam ? param : 0., nvar, aniso ? ":aniso" : "");
+        printf("s psd %s %d %s %s =>\n", cfg, nm, vals.c_str(), dy(std::ldexp(std::max(scale, 1e-300), -36)).c_str());
         st.hit("psd_" + tname);
         delete model;
       }
